@@ -141,8 +141,7 @@ func (t *trace) observeDisk(store db.KeyValueStore, full bool) diskObs {
 	h, err := core.GetChainHeight(store)
 	if err == nil {
 		o.H = fmt.Sprint(h)
-		img := image(store)
-		bc := t.sc.open(img)
+		bc := t.sc.open(store)
 		if r, closer, err := bc.HeadState(); err == nil {
 			if c, ok := r.(committer); ok {
 				ver := "0.14.0"
@@ -189,7 +188,7 @@ func (t *trace) observeDisk(store db.KeyValueStore, full bool) diskObs {
 		o.L1 = fmt.Sprint(l1.BlockNumber)
 	}
 	if full {
-		if rf, err := restartFilter(image(store), t.sc.Pruning); err == nil {
+		if rf, err := restartFilter(store, t.sc.Pruning); err == nil {
 			nx, _ := rf.NextBlock()
 			lo, _ := rf.FromBlock()
 			o.Init = fmt.Sprintf("%d/%d", lo, nx)
@@ -306,7 +305,19 @@ func (t *trace) script() (lines, want []string) {
 		}
 		add("base "+snap, "ok")
 	}
+	// a pruning node initialises its filter with pruner.InitializeRunningEventFilter, which the
+	// model does not transcribe: only the disk side is compared there
+	filterToo := !t.sc.Pruning
 	diskChecks := func(o diskObs) {
+		if !filterToo {
+			hn := uint64(0)
+			if o.H != "-" {
+				fmt.Sscan(o.H, &hn)
+			}
+			add(fmt.Sprintf("blkobs %d", hn), o.Head)
+			add(fmt.Sprintf("blkobs %d", hn+1), o.Above)
+			return
+		}
 		for _, lo := range strings.Split(o.Wins, ",") {
 			if lo != "-" && lo != "" {
 				add("winbits "+lo, o.WinBits[lo])
@@ -338,7 +349,7 @@ func (t *trace) script() (lines, want []string) {
 			ci++
 			add("save", "ok")
 			add(st.line+" "+c.fault, "ok")
-			add("obs", obsLine(c.disk, "lazy"))
+			add("obsd", obsLine(c.disk, "lazy"))
 			diskChecks(c.disk)
 			add("load", "ok")
 		}
@@ -353,10 +364,14 @@ func (t *trace) script() (lines, want []string) {
 		if st.quiet {
 			continue
 		}
-		add("touch", "ok")
-		add("obs", obsLine(st.disk, st.mem))
-		if st.mem != "broken" {
-			add("membits", st.memBits)
+		if filterToo {
+			add("touch", "ok")
+			add("obs", obsLine(st.disk, st.mem))
+			if st.mem != "broken" {
+				add("membits", st.memBits)
+			}
+		} else {
+			add("obsd", obsLine(st.disk, "lazy"))
 		}
 		diskChecks(st.disk)
 	}
